@@ -10,7 +10,8 @@ Inductive c12op :=
 | XSavepoint (ops srs : list N) (o_err : bool) (o_id : N) (o_created : bool)
 | XAckOp (cid op pl : N) (o_err : bool) (o_pub : option pubobs)
 | XAckSr (cid sr : N) (sts : list N) (o_err : bool) (o_pub : option pubobs)
-| XRestart (o_files : list N) (o_cur : option snapobs).
+| XRestart (o_files : list N) (o_cur : option snapobs)
+| XLoseRemoves (b : bool).   (* fault injection: from now on the Remove calls of this process do not reach storage *)
 
 Inductive c13step :=
 | YPub (o_id : N)
@@ -52,6 +53,7 @@ Definition action_of (o : c12op) : action :=
   | XAckOp cid op pl _ _ => AAckOp cid op pl
   | XAckSr cid sr sts _ _ => AAckSr cid sr sts
   | XRestart _ _ => ARestart
+  | XLoseRemoves b => ALoseRemoves b
   end.
 Definition result_of (o : c12op) : result :=
   match o with
@@ -60,6 +62,7 @@ Definition result_of (o : c12op) : result :=
   | XAckOp _ _ _ e p => RAck e p
   | XAckSr _ _ _ e p => RAck e p
   | XRestart f c => RRestart f c
+  | XLoseRemoves _ => RFault
   end.
 
 Definition cmp_result (model obs : result) : list N :=
@@ -78,6 +81,7 @@ Definition cmp_result (model obs : result) : list N :=
       end
   | RRestart f1 c1, RRestart f2 c2 =>
       if set_eqb f1 f2 && opt_eqb snap_same c1 c2 then [] else [6]
+  | RFault, RFault => []
   | _, _ => [9]
   end.
 
